@@ -31,7 +31,7 @@ ASSUMPTIONS = ["where OpenFlow 1.0 defines no error (port stats / queue "
                "may appear between replies",
                "flow_mod with an unknown action type is not generated (the "
                "statement lists ports, tables, queues, buffers, commands)"]
-REQUIRED = ["requests_after_an_entry_with_a_vendor_action", "requests_sent_some_time_after_the_one_before", "reactive_delivery_compared", "mid_session_hellos", "bounded_table_cases", "barrier_state_probes_with_state_to_see", "requests", "replies_checked", "errors_checked", "no_reply_checked",
+REQUIRED = ["emergency_entries_with_a_timeout", "requests_after_an_entry_with_a_vendor_action", "requests_sent_some_time_after_the_one_before", "reactive_delivery_compared", "mid_session_hellos", "bounded_table_cases", "barrier_state_probes_with_state_to_see", "requests", "replies_checked", "errors_checked", "no_reply_checked",
             "stats_requests", "batch_compared", "invalid_requests",
             "barrier_probes"]
 TIMEOUT = {"quick": 900, "thorough": 7200}
@@ -96,6 +96,11 @@ class Model (object):
       for q in tgt:
         if self.config[q] & (1 | (1 << 5)): continue       # PORT_DOWN, NO_FWD
         self.tx[q][0] += 1; self.tx[q][1] += nbytes
+
+
+_REP = [None]
+def rep_count (name):
+  if _REP[0] is not None: _REP[0].count(name)
 
 
 def expect (model, req):
@@ -176,7 +181,12 @@ def expect (model, req):
       model.tainted = True
       return ("error_or_none",)
     if d["flags"] & OT.FF_EMERG:
-      return ("error", [(3, 0), (3, 2), (3, 3), (3, 5)])
+      if d["idle_timeout"] or d["hard_timeout"]:
+        # OpenFlow 1.0 names the error for this one: an emergency entry must
+        # not have a timeout, either of them (BAD_EMERG_TIMEOUT)
+        rep_count("emergency_entries_with_a_timeout")
+        return ("error", [(3, 3)])
+      return ("error", [(3, 0), (3, 2), (3, 5)])
     rem, errs = model.table.flow_mod(d, _clk[0].now if _clk else 0)
     if errs: return ("error", errs)
     return ("none",)
@@ -734,6 +744,7 @@ def describe (m):
 _clk = []
 
 def do_case (case, rep):
+  _REP[0] = rep
   clock = simnet.VClock(5000.5)
   clock.install()       # durations in stats replies must not depend on wall time
   _clk[:] = [clock]
